@@ -1092,6 +1092,9 @@ func (t *TableCache) Populate(tableUpdates ovsdb.TableUpdates) error {
 		for uuid, row := range tu {
 			t.logger.V(5).Info("processing update", "table", table, "uuid", uuid)
 			update := updates.ModelUpdates{}
+			if row == nil {
+				return fmt.Errorf("update of row %s in table %s is null", uuid, table)
+			}
 			current := tCache.cache[uuid]
 			if row.Old != nil && current == nil {
 				return NewErrCacheInconsistent(fmt.Sprintf("row with uuid %s does not exist", uuid))
@@ -1122,6 +1125,9 @@ func (t *TableCache) Populate2(tableUpdates ovsdb.TableUpdates2) error {
 		for uuid, row := range tu {
 			t.logger.V(5).Info("processing update", "table", table, "uuid", uuid)
 			update := updates.ModelUpdates{}
+			if row == nil {
+				return fmt.Errorf("update of row %s in table %s is null", uuid, table)
+			}
 			current := tCache.cache[uuid]
 			if row.Initial == nil && row.Insert == nil && current == nil {
 				return NewErrCacheInconsistent(fmt.Sprintf("row with uuid %s does not exist", uuid))
